@@ -914,3 +914,110 @@ def gen_kv(seed, n, start_id=0):
         lines += ["kiter - -", "kriter - -", "krawdump"]
         out.append((hid, lines))
     return out
+
+
+# ---------------------------------------------------------------------------------------------
+# C13: decoder inputs — valid encodings from an independent (third) encoder, their mutations, and
+# random bytes
+
+def _uv(n):
+    out = bytearray()
+    while n >= 0x80:
+        out.append((n & 0x7F) | 0x80)
+        n >>= 7
+    out.append(n)
+    return bytes(out)
+
+
+def _sv(i):
+    u = (i << 1) if i >= 0 else ((-i << 1) - 1)
+    return _uv(u)
+
+
+def _bs(b):
+    return _uv(len(b)) + b
+
+
+def _rb(r, lo=0, hi=6):
+    return bytes([r.randrange(256) for _ in range(r.randint(lo, hi))])
+
+
+def _enc_node(r):
+    if r.random() < 0.4:
+        return _sv(0) + _sv(r.choice([1, 1, 0, -1, 5, 2 ** 40])) + _bs(_rb(r)) + _bs(_rb(r, 0, 40))
+    h = r.choice([1, 2, 3, 7, 127, -1, -128])
+    mode = r.choice([0, 0, 0, 1, 2, 3])
+
+    def child(legacy):
+        if legacy:
+            return _bs(_rb(r, 32, 32) if r.random() < 0.8 else _rb(r, 0, 40))
+        return _sv(r.choice([1, 2, 300, 2 ** 40, -1, 0])) + _sv(r.choice([0, 1, 2, 70000, 2 ** 32 - 1, 2 ** 32, -1]))
+    return (_sv(h) + _sv(r.choice([2, 3, 1000, 0])) + _bs(_rb(r, 1, 5)) + _bs(_rb(r, 32, 32) if r.random() < 0.9 else _rb(r, 0, 33))
+            + _sv(mode if r.random() < 0.9 else r.choice([4, -1, 100])) + child(mode & 1) + child(mode & 2))
+
+
+def _enc_legacy(r):
+    if r.random() < 0.4:
+        return _sv(0) + _sv(1) + _sv(r.choice([1, 7, 2 ** 50, -3])) + _bs(_rb(r)) + _bs(_rb(r, 0, 10))
+    return (_sv(r.choice([1, 2, 9, -4, 127])) + _sv(r.randint(2, 50)) + _sv(r.randint(1, 99)) + _bs(_rb(r, 1, 4))
+            + _bs(_rb(r, 32, 32)) + _bs(_rb(r, 32, 32)))
+
+
+def _mutate_bytes(r, b):
+    b = bytearray(b)
+    for _ in range(r.randint(1, 3)):
+        m = r.randrange(9)
+        if m == 0 and b:
+            b[r.randrange(len(b))] ^= 1 << r.randrange(8)
+        elif m == 1 and b:
+            del b[r.randrange(len(b)):]
+        elif m == 2:
+            b += _rb(r, 1, 4)
+        elif m == 3 and b:
+            i = r.randrange(len(b))
+            b[i:i + 1] = b"\xff" * r.randint(1, 11)      # over-long varint
+        elif m == 4 and b:
+            i = r.randrange(len(b))
+            b[i:i + 1] = _uv(r.choice([2 ** 63 - 1, 2 ** 63, 2 ** 64 - 1, 2 ** 31, 2 ** 32]))   # huge length / value
+        elif m == 5 and b:
+            del b[r.randrange(len(b))]
+        elif m == 6 and b:
+            b[r.randrange(len(b))] = r.choice([0, 0x80, 0xFF, 0x7F, 1])
+        elif m == 7:
+            b = bytearray(_rb(r, 0, 3)) + b
+        else:
+            b.insert(r.randrange(len(b) + 1), r.randrange(256))
+    return bytes(b)
+
+
+def gen_codec(seed, n, start_id=0):
+    out = []
+    for i in range(n):
+        r = random.Random((seed * 49979687 + start_id + i) & 0xFFFFFFFFFFFF)
+        hid = "d%d" % (start_id + i)
+        lines = ["new " + hid]
+        for _ in range(60):
+            kind = r.choice(["makenode", "makenode", "makelegacy", "fastnode", "decbytes", "decvarint", "decuvarint", "rootval"])
+            x = r.random()
+            if kind == "makenode":
+                b = _enc_node(r)
+            elif kind == "makelegacy":
+                b = _enc_legacy(r)
+            elif kind == "fastnode":
+                b = _sv(r.choice([0, 1, 5, 2 ** 62, -1])) + _bs(_rb(r, 0, 20))
+            elif kind == "decbytes":
+                b = _bs(_rb(r, 0, 20)) + _rb(r, 0, 3)
+            elif kind == "decvarint":
+                b = _sv(r.choice([0, 1, -1, 63, -64, 2 ** 63 - 1, -2 ** 63, r.randint(-2 ** 40, 2 ** 40)])) + _rb(r, 0, 2)
+            elif kind == "decuvarint":
+                b = _uv(r.choice([0, 1, 127, 128, 2 ** 64 - 1, 2 ** 63, r.randint(0, 2 ** 50)])) + _rb(r, 0, 2)
+            else:
+                b = r.choice([b"", b"s", b"s" + _rb(r, 12, 12), b"s" + _rb(r, 8, 8), b"s" + _rb(r, 0, 20), _enc_node(r), _rb(r, 1, 30)])
+            if kind != "rootval":
+                if x < 0.45:
+                    b = _mutate_bytes(r, b)
+                elif x < 0.6:
+                    b = _rb(r, 0, 24)
+            lines.append("%s %s" % (kind, enc(b)))
+        out.append((hid, lines))
+    return out
